@@ -17,4 +17,5 @@ Emit == Len(h) = Depth =>
                      openOptions |-> <<"WRITE", "CREATE", "APPEND">>]).exitValue = 0
 GenMods == {"m1", "m2"}
 GenAbsent == {"a1"}
+GenBroken == {"b1"}
 =============================================================================
